@@ -17,7 +17,7 @@ def validReq (r : String) : Option Bool :=
     let allowed := (client = "alice") || (client = "bob" && key = "kec")
     let sigOk := sigtype = "cosign" || sigtype = "ps" || (sigtype = "pgp" && key = "krsa")
     let digOk := digest = "sha256" || digest = "sha384" || digest = "sha512"
-    let bodyOk := !(sigtype = "cosign" && body = "bad")
+    let bodyOk := !(sigtype = "cosign" && body = "bad")   -- body "big": a good payload under a 4.8 kB file name
     some (keyOk && allowed && sigOk && digOk && bodyOk)
   | _ => none
 
